@@ -17,6 +17,7 @@
 //!   c14 freshsrc REPO         source of a program with a #[derive(Parser)] of grammar.pest that appends its own observation to D lines
 //!   c14 freshgen REPO         the same, but the parser is the token stream the in-tree pest_generator::derive_parser returns for grammar.pest
 //!                             (the bootstrap invocation), written out as source: the program depends on the repository's `pest` only
+//!   c14 switches REPO COUNT SEED   the legs under pest::set_error_detail(true) and under call limits (P / L lines; see the mode)
 //!   c14 target REPO NAMES MAXLEN [light] [SEED]   targeted failing-input search for the rules NAMES (see the mode)
 #[path = "../genread.rs"]
 mod genread;
@@ -323,9 +324,80 @@ fn pest_files(repo: &str) -> Vec<String> {
     out
 }
 
+/// fragments of the meta-language: one per construct of it
+const FRAGS: [&str; 35] = ["\"a\"", "'a'..'z'", "^\"a\"", "a = { b }", "PUSH(a)", "PEEK[1..2]", "PEEK[..]", "PEEK[-1..]", "a{2,3}", "a{,3}", "a{2,}", "a{2}", "#t = a", "// c\n", "/* c */", "/// d\n", "//! d\n",
+                "\"\\n\"", "\"\\x41\"", "\"\\u{1F600}\"", "'\\''", "a ~ b | c", "!a ~ &b", "(a | b)*", "a+?", "_", "a = _{ \"x\" }", "a = @{ b }", "a = ${ b }", "a = !{ b }", "PUSH_LITERAL(\"a\")", "-12", "007", "|a", "a = { | b }"];
+
+include!("../c14_switches.rs");
+
+fn plain_obs<R: pest::RuleType>(res: Result<pest::iterators::Pairs<'_, R>, pest::error::Error<R>>, name: &dyn Fn(R) -> String) -> String {
+    match res { Ok(p) => format!("Ok {}", forest(p, name)), Err(e) => obs_err(e) }
+}
+
+#[derive(Default)]
+struct SwCounts { detail: u64, detail_err: u64, limit: u64, budgets: u64, vm_far: u64 }
+
+/// One (rule, text) case under a setting of pest's process-wide switches (see src/c14_switches.rs): `detail` -> a P line, `limit:auto`
+/// / `limit:<n>` -> an L line.  The switches are put back to their defaults (no limit, no detail) afterwards.
+fn observe_switch(vm: &pest_vm::Vm, r: pest_meta::parser::Rule, name: &str, t: &str, sw: &str, c: &mut SwCounts, w: &mut dyn Write) {
+    let rn = |x: pest_meta::parser::Rule| format!("{:?}", x);
+    let vn = |x: &str| x.to_string();
+    if sw == "detail" {
+        pest::set_error_detail(true);
+        let r2m: pest::error::RuleToMessageFn<pest_meta::parser::Rule> = Box::new(|r: &pest_meta::parser::Rule| Some(format!("{:?}", r)));
+        let a = catch(|| detail_obs(pest_meta::parser::parse(r, t), t, &rn, &r2m)).unwrap_or_else(|m| format!("Panic {}", m));
+        let v2m: pest::error::RuleToMessageFn<&str> = Box::new(|r: &&str| Some(r.to_string()));
+        let b = catch(|| detail_obs(vm.parse(name, t), t, &vn, &v2m)).unwrap_or_else(|m| format!("Panic {}", m));
+        pest::set_error_detail(false);
+        c.detail += 1;
+        if a.contains(" attempts: ") { c.detail_err += 1; }
+        writeln!(w, "P\t{}\t{}\t{}\t{}", name, hex(t), a, b).unwrap();
+        return;
+    }
+    let ck = || catch(|| plain_obs(pest_meta::parser::parse(r, t), &rn)).unwrap_or_else(|m| format!("Panic {}", m));
+    let vmr = || catch(|| plain_obs(vm.parse(name, t), &vn)).unwrap_or_else(|m| format!("Panic {}", m));
+    c.limit += 1;
+    if let Some(Ok(n)) = sw.strip_prefix("limit:").map(|x| x.parse::<usize>()) {
+        let a = sw_under(n, &ck);
+        let b = sw_under(n, &vmr);
+        pest::set_call_limit(None);
+        writeln!(w, "L\t{}\t{}\t{}\t{}\t{}", name, hex(t), n, a, b).unwrap();
+        return;
+    }
+    let (need, a) = budget_obs(&ck, 0);
+    let mut b = "vmfar=ok".to_string();
+    if let Some(need) = need {
+        c.budgets += 1;
+        // pest_vm far from the budget of the generated parser
+        let free_vm = vmr();
+        let free_ck = ck();
+        let hi = need * 8 + 256;
+        let v = sw_under(hi, &vmr);
+        c.vm_far += 1;
+        if v != free_vm || v != free_ck { b = format!("vmfar=DIFF limit={} pest_vm under it: `{}`; checked-in parser and pest_vm without a limit: `{}` / `{}`", hi, v, free_ck, free_vm); }
+        let lo = need / 8;
+        if lo >= 1 && b == "vmfar=ok" {
+            let v = sw_under(lo, &vmr);
+            c.vm_far += 1;
+            if v != SW_LIMITED { b = format!("vmfar=DIFF limit={} pest_vm under it: `{}`; the checked-in parser refuses every limit below {}", lo, v, need); }
+        }
+        pest::set_call_limit(None);
+    }
+    writeln!(w, "L\t{}\t{}\tauto\t{}\t{}", name, hex(t), a, b).unwrap();
+}
+
+/// every prefix of `t` that ends at a character boundary (the text itself last)
+fn prefixes(t: &str) -> Vec<String> {
+    let mut v: Vec<String> = t.char_indices().map(|(i, _)| t[..i].to_string()).filter(|p| !p.is_empty()).collect();
+    v.push(t.to_string());
+    v
+}
+
 /// lines `rule TAB hex of the text`
-fn read_seq(path: &str) -> Vec<(String, String)> {
-    std::fs::read_to_string(path).unwrap_or_default().lines().filter_map(|l| { let mut p = l.split('\t'); match (p.next(), p.next()) { (Some(r), Some(h)) if !r.is_empty() => Some((r.to_string(), pvharness::prog::unhex(h))), _ => None } }).collect()
+fn read_seq(path: &str) -> Vec<(String, String)> { read_seq3(path).into_iter().map(|(r, t, _)| (r, t)).collect() }
+/// lines `rule TAB hex of the text [TAB switch]` (switch: `detail`, `limit:<n>`, `limit:auto`; see `observe_switch`)
+fn read_seq3(path: &str) -> Vec<(String, String, String)> {
+    std::fs::read_to_string(path).unwrap_or_default().lines().filter_map(|l| { let mut p = l.split('\t'); match (p.next(), p.next(), p.next()) { (Some(r), Some(h), sw) if !r.is_empty() => Some((r.to_string(), pvharness::prog::unhex(h), sw.unwrap_or("").trim().to_string())), _ => None } }).collect()
 }
 
 fn main() {
@@ -418,8 +490,7 @@ fn main() {
             // fragments fed to every rule: short strings over the meta alphabet
             let alpha = ["a", "=", "{", "}", "\"", "'", "~", "|", "*", " ", "_", "!"];
             if fixed { for t in all_strings(&alpha, 2) { cases.push((t, all.to_vec())); } }
-            let frags = ["\"a\"", "'a'..'z'", "^\"a\"", "a = { b }", "PUSH(a)", "PEEK[1..2]", "PEEK[..]", "PEEK[-1..]", "a{2,3}", "a{,3}", "a{2,}", "a{2}", "#t = a", "// c\n", "/* c */", "/// d\n", "//! d\n",
-                "\"\\n\"", "\"\\x41\"", "\"\\u{1F600}\"", "'\\''", "a ~ b | c", "!a ~ &b", "(a | b)*", "a+?", "_", "a = _{ \"x\" }", "a = @{ b }", "a = ${ b }", "a = !{ b }", "PUSH_LITERAL(\"a\")", "-12", "007", "|a", "a = { | b }"];
+            let frags = FRAGS;
             for f in frags.iter() { if fixed { cases.push((f.to_string(), all.to_vec())); } let m = mutate(&mut rng, f); cases.push((m, all.to_vec())); }
             for _ in 0..count { let n = rng.range(3, 10); let t: String = (0..n).map(|_| alpha[rng.below(alpha.len() as u64) as usize]).collect(); let rs = main_rules(&mut rng); cases.push((t, rs)); }
             // the characters a layer between the caller and the generated parser typically strips or normalises (ENTRY_CHARS), through the
@@ -453,8 +524,18 @@ fn main() {
             if arg(5) == "one" { cases = vec![(pvharness::prog::unhex(&arg(7)), all.iter().cloned().filter(|r| format!("{:?}", r) == arg(6)).collect())]; }
             // `seq FILE`: the (rule, text) cases of FILE (lines `rule TAB hex`), in that order, in this one process (a replay with its history)
             let seq = arg(5) == "seq";
-            if seq { cases = read_seq(&arg(6)).into_iter().map(|(rule, t)| (t, all.iter().cloned().filter(|r| format!("{:?}", r) == rule).collect())).collect(); }
             let mut c = Counts::default();
+            if seq {
+                // (a case with a third column is run under that setting of pest's process-wide switches)
+                let mut sc = SwCounts::default();
+                for (rule, t, sw) in read_seq3(&arg(6)) {
+                    for r in all.iter().cloned().filter(|r| format!("{:?}", r) == rule) {
+                        if !names.contains(&rule) && rule != "EOI" { continue; }
+                        if sw.is_empty() { observe(&vm, true, r, &rule, &t, true, &mut c, &mut w); } else if names.contains(&rule) { c.n += 1; observe_switch(&vm, r, &rule, &t, &sw, &mut sc, &mut w); }
+                    }
+                }
+                cases.clear();
+            }
             for (t, rs) in &cases {
                 for r in rs {
                     let name = format!("{:?}", r);
@@ -746,16 +827,89 @@ fn main() {
             writeln!(w, "#SUMMARY\tevaluations={}\tdistinct_nontrivial={}\tdirect_differences={}\tpest_files=0\tentry_vs_generated={}\tparse_and_optimize_vs_vm={}\tsettings_checks={}\tsettings_changes={}\tparse_and_optimize_vs_steps={}\tlarge_episodes={}\tlarge_bytes={}",
                 c.n, c.nt, c.diffs, c.entry, c.top, c.settings, c.leaks, c.parts, episodes.len(), bytes).unwrap();
         }
+        "switches" => {
+            // c14 switches REPO COUNT SEED
+            // The legs under the settings of pest's two process-wide switches (src/c14_switches.rs; P and L lines, the compiled fresh parser
+            // appends its column downstream).  Texts, none specific to a rule: a shortest spelling of EVERY rule and the fragments of the
+            // meta-language (one per construct), each with EVERY PREFIX of it (a text that ends inside a construct is where the detail of an
+            // error is richest), fed to every rule; the fragments as the body of a rule and behind / in front of / inside a rule, with every
+            // prefix, fed to the top rule; the shipped grammar files whole and cut at random places; random derivations from the rules of the
+            // current grammar.pest and mutations of them.  With error detail: all of them.  Under call limits (about 2 x 2 log2(calls) parses
+            // per leg and text): the spellings, the fragments for the top rule and their home rule, the shipped files up to 12 kB, a third of
+            // the random derivations.
+            let count = arg_u64(3, 150); let mut rng = Rng::new(arg_u64(4, 0) ^ 0x5_71c4e5);
+            let gtext = std::fs::read_to_string(grammar_path(&repo)).expect("grammar.pest");
+            let opt = match catch(|| pest_meta::parse_and_optimize(&gtext)) { Ok(Ok((_, o))) => o, _ => { writeln!(w, "#SUMMARY\tevaluations=0\tdistinct_nontrivial=0").unwrap(); return; } };   // reported by `diff`
+            let names: Vec<String> = opt.iter().map(|r| r.name.clone()).collect();
+            let rmap: std::collections::HashMap<String, pest_meta::optimizer::OptimizedExpr> = opt.iter().map(|r| (r.name.clone(), r.expr.clone())).collect();
+            let go = texts::G::new(&from_orules(&opt));
+            let vm = pest_vm::Vm::new(opt);
+            let all: Vec<pest_meta::parser::Rule> = pest_meta::parser::Rule::all_rules().iter().cloned().filter(|r| names.contains(&format!("{:?}", r))).collect();
+            let top = pest_meta::parser::Rule::grammar_rules;
+            let rule_of = |n: &str| all.iter().cloned().find(|r| format!("{:?}", r) == n);
+            let mut detail: Vec<(String, Vec<pest_meta::parser::Rule>)> = vec![];
+            let mut limit: Vec<(String, Vec<pest_meta::parser::Rule>)> = vec![];
+            for r in all.iter() {
+                let base = go.short.get(&format!("{:?}", r)).cloned().unwrap_or_default();
+                for p in prefixes(&base) { detail.push((p, vec![*r])); }
+                detail.push((format!("{} ", base), vec![*r]));
+                limit.push((base, vec![*r]));
+            }
+            let embed = ["a = { @ }", "a = { b }@", "@a = { b }", "a = @{ b }", "a = { b ~ @ }"];
+            for f in FRAGS.iter() {
+                for p in prefixes(f) { detail.push((p, all.clone())); }
+                // the rules that accept the fragment whole are its homes
+                let homes: Vec<pest_meta::parser::Rule> = all.iter().cloned().filter(|r| matches!(catch(|| pest_meta::parser::parse(*r, f).map(|_| ())), Ok(Ok(())))).collect();
+                let mut rs = vec![top]; rs.extend(homes.into_iter().take(6));
+                limit.push((f.to_string(), rs));
+                for e in embed.iter() {
+                    let k = e.find('@').unwrap();
+                    let whole = format!("{}{}{}", &e[..k], f, &e[k + 1..]);
+                    for p in prefixes(&whole) { if p.len() > k { detail.push((p, vec![top])); } }
+                    limit.push((whole, vec![top]));
+                }
+            }
+            let mut nfiles = 0;
+            for f in pest_files(&repo) {
+                if let Ok(t) = std::fs::read_to_string(&f) {
+                    nfiles += 1;
+                    let bounds: Vec<usize> = t.char_indices().map(|(i, _)| i).collect();
+                    if t.len() <= 12_000 { limit.push((t.clone(), vec![top])); }
+                    for _ in 0..3 { if !bounds.is_empty() { let k = bounds[rng.below(bounds.len() as u64) as usize]; detail.push((t[..k].to_string(), vec![top])); } }
+                    detail.push((t, vec![top]));
+                }
+            }
+            for i in 0..count {
+                let start = if i % 3 == 0 { "grammar_rules".to_string() } else { names[rng.below(names.len() as u64) as usize].clone() };
+                let mut t = String::new();
+                derive(&rmap, &rmap[&start], &mut rng, 4 + (i % 3) as u32, &mut t);
+                let rs: Vec<pest_meta::parser::Rule> = rule_of(&start).into_iter().collect();
+                if rs.is_empty() { continue; }
+                if i % 3 == 1 { limit.push((t.clone(), rs.clone())); }
+                detail.push((t.clone(), rs.clone()));
+                for _ in 0..2 { let m = mutate(&mut rng, &t); detail.push((m, rs.clone())); }
+            }
+            if arg(5) == "seq" { detail.clear(); limit.clear(); }
+            let mut sc = SwCounts::default();
+            let mut seen: std::collections::HashSet<(String, String)> = std::collections::HashSet::new();
+            for (t, rs) in &detail { for r in rs { let name = format!("{:?}", r); if seen.insert((name.clone(), t.clone())) { observe_switch(&vm, *r, &name, t, "detail", &mut sc, &mut w); } } }
+            seen.clear();
+            for (t, rs) in &limit { for r in rs { let name = format!("{:?}", r); if seen.insert((name.clone(), t.clone())) { observe_switch(&vm, *r, &name, t, "limit:auto", &mut sc, &mut w); } } }
+            writeln!(w, "#SUMMARY\tevaluations={}\tdistinct_nontrivial={}\tdetail_cases={}\tdetail_errors_with_attempts={}\tlimit_cases={}\tbudgets_found={}\tvm_far_from_budget={}\tpest_files={}",
+                sc.detail + sc.limit, sc.detail_err + sc.budgets, sc.detail, sc.detail_err, sc.limit, sc.budgets, sc.vm_far, nfiles).unwrap();
+        }
         "freshgen" => {
             let derived = match catch(|| fresh_tokens(&repo)) { Ok(t) => t, Err(m) => { eprintln!("derive_parser panicked: {}", m); std::process::exit(3); } };
             writeln!(w, "// GENERATED by `c14 freshgen`: what bootstrap would write to meta/src/grammar.rs for {}\n#![allow(warnings)]\nuse pest::Parser;", grammar_path(&repo)).unwrap();
             writeln!(w, "mod fresh {{\npub struct PestParser;\n{}\n}}\nuse fresh::{{PestParser as Fresh, Rule}};", derived).unwrap();
             writeln!(w, "{}", include_str!("../c14_fresh_main.rs.in")).unwrap();
+            writeln!(w, "{}", include_str!("../c14_switches.rs")).unwrap();
         }
         "freshsrc" => {
             writeln!(w, "// GENERATED by `c14 freshsrc`\n#![allow(warnings)]\nuse pest::Parser;\n#[derive(pest_derive::Parser)]\n#[grammar = {:?}]\npub struct Fresh;", grammar_path(&repo)).unwrap();
             writeln!(w, "{}", include_str!("../c14_fresh_main.rs.in")).unwrap();
+            writeln!(w, "{}", include_str!("../c14_switches.rs")).unwrap();
         }
-        _ => { eprintln!("usage: c14 regen|read|readx|diff|large|target|freshsrc|freshgen REPO [..]"); std::process::exit(2); }
+        _ => { eprintln!("usage: c14 regen|read|readx|diff|large|switches|target|freshsrc|freshgen REPO [..]"); std::process::exit(2); }
     }
 }
